@@ -132,6 +132,28 @@ func cmdCheck(args []string) int {
 	for _, k := range keys {
 		x.verifyFunction(db.contracts[k])
 	}
+	// bounded stand-ins (never counted as proved)
+	var boundedOut []map[string]any
+	var boundedViol []boundedResult
+	for _, b := range cfg.Bounded {
+		if strings.HasPrefix(b, "sql-search") {
+			res, err := boundedSearchQuery(*repo)
+			if err != nil {
+				return fail(err.Error())
+			}
+			nOK := 0
+			for _, r := range res {
+				if r.OK {
+					nOK++
+				} else {
+					boundedViol = append(boundedViol, r)
+				}
+			}
+			boundedOut = append(boundedOut, map[string]any{"name": "sql-search", "what": b, "cases": len(res), "cases_ok": nOK,
+				"bound": "|ByIDs| <= 2, |ByGroupIDs| <= 2, |ByStatus| <= 3 (35 filter shapes); WHERE clause evaluated on 3 ids x 3 groups x 4 statuses",
+				"method": "the real buildSearchQuery is run (go test -overlay); its SQL is parsed and compared with the filter semantics of the statement"})
+		}
+	}
 	x.verifyLemmas(*prop)
 	symS := time.Since(t1).Seconds()
 	dir, _ := os.MkdirTemp("", "govc-")
@@ -202,6 +224,18 @@ func cmdCheck(args []string) int {
 			line += " no-failing-input-found"
 		}
 		violations = append(violations, line)
+	}
+	for _, r := range boundedViol {
+		if k, ok := knownBy[r.Name]; ok {
+			knownHit = append(knownHit, k)
+			continue
+		}
+		name := strings.NewReplacer(" ", "_", "[", "_", "]", "", ",", "_", "=", "").Replace(r.Name)
+		path := filepath.Join(*verif, "replays", *prop+"-"+name+".json")
+		rb, _ := json.MarshalIndent(map[string]any{"property": *prop, "obligation": r.Name, "kind": "bounded", "failing_input": json.RawMessage(r.Input), "what_fails": r.Detail,
+			"replay": "run (reader).buildSearchQuery on the filter shape in failing_input (the check does so through go test -overlay); the query it returns is in failing_input.q"}, "", " ")
+		os.WriteFile(path, rb, 0o644)
+		violations = append(violations, fmt.Sprintf("VIOLATION property=%s replay=%s obligation=%s status=failing-input-found", *prop, path, r.Name))
 	}
 	// known findings are not counted as obligations or discharged
 	nObl -= len(knownObls)
@@ -274,7 +308,7 @@ func cmdCheck(args []string) int {
 		"abstracted_calls":         abstracted,
 		"inlined_callees":          inlined,
 		"known_finding_obligations": knownObls,
-		"bounded":                  cfg.Bounded,
+		"bounded":                  boundedOut,
 		"samples":                  samples,
 		"obligation_results":       outs,
 		"tool_failures":            toolFailures,
